@@ -32,6 +32,9 @@ ob("O-C10-posusize", ["C10", "C05", "C09"], J, "c10_as_pos_usize_int", "Num::as_
 ob("O-C10-index-model", ["C10"], J, "c10_index_model", "top level: for every machine integer i and every len, as_pos_usize followed by abs_index reads position (i >= 0 ? i : len + i) iff it lies in 0..len, and nothing otherwise", [NUM + "Num::as_pos_usize", LIB + "abs_index"], stubs=["abs_index"])
 ob("O-C10-slice-model", ["C10"], J, "c10_slice_model", "top level: for all optional machine-integer bounds and every len, the selected slice is [clip(pos(start)), max(clip(pos(end)), clip(pos(start)))) with null = open", [NUM + "Num::as_pos_usize", LIB + "skip_take"], stubs=["skip_take"])
 
+ob("O-C10-chars2", ["C10", "C13", "C05"], J, "c10_skip_take_chars_2", "skip_take_chars: the one position model applied to the character count of a text string (characters as bstr decodes them, every invalid byte one character), returned as byte offsets of character boundaries - slicing text never splits a character and never leaves the string; all positions and bounds", [LIB + "skip_take_chars"], label="bounded", bound="all byte strings of length <= 2 (valid and invalid UTF-8), all positions", composes_dependency=True)
+ob("O-C10-chars3", ["C10", "C13", "C05"], J, "c10_skip_take_chars_3", "skip_take_chars: the same on all byte strings of length <= 3", [LIB + "skip_take_chars"], label="bounded", bound="all byte strings of length <= 3, all positions", composes_dependency=True, tier="thorough")
+
 # ------------------------------------------------------------------------------------ C08
 ob("O-C08-float", ["C08"], J, "c08_float_cmp_order", "float_cmp is a total preorder on non-NaN floats (reflexive, antisymmetric, transitive over all triples), float_eq <=> Equal, and it agrees with IEEE <, ==, > (so -inf < finite < +inf, -0 == +0)", [NUM + "float_cmp", NUM + "float_eq"])
 for k, kinds in (("ii", "Int,Int"), ("if", "Int,Float"), ("fi", "Float,Int"), ("ff", "Float,Float")):
@@ -101,6 +104,8 @@ ob("O-C15-table", ["C15"], C, "c15_precedence_table", "for every pair of binary 
 for a in ("lll", "llr", "lrl", "lrr", "rll", "rlr", "rrl", "rrr"):
     ob(f"O-C15-climb3-{a}", ["C15"], C, f"c15_climb3_{a}", f"prec_climb::climb (the generic engine behind Term::climb) builds exactly the tree the table implies - split at the loosest operator, rightmost among equals if left-associative, leftmost if right-associative - for every sequence of 1..3 operators over three precedence levels with associativities {a} (l = left, r = right, per level)", [CORE + "load/prec_climb.rs::climb", CORE + "load/prec_climb.rs::climb1"], label="bounded", bound="all operator sequences of length <= 3 over 3 precedence levels (every order type of 3 operators), enumerated concretely")
     ob(f"O-C15-climb4-{a}", ["C15"], C, f"c15_climb4_{a}", f"the same for every sequence of 4 operators over three precedence levels, associativities {a}", [CORE + "load/prec_climb.rs::climb", CORE + "load/prec_climb.rs::climb1"], label="bounded", bound="all 81 operator sequences of length 4 over 3 precedence levels, enumerated concretely", tier="thorough")
+ob("O-C09-ops", ["C09"], C, "c09_math_dispatch", "ops::Math::run applies exactly the operator its variant names to (l, r) in that order, and as_str is the manual's symbol, for every operator and all operands (recording operand type)", [CORE + "ops.rs::Math::run", CORE + "ops.rs::Math::as_str"])
+ob("O-C08-ops", ["C08"], C, "c08_cmp_dispatch", "ops::Cmp::run is the comparison its variant names (<, <=, >, >=, ==, !=) on an ordered type, for all pairs, and as_str is the manual's symbol", [CORE + "ops.rs::Cmp::run", CORE + "ops.rs::Cmp::as_str"])
 ob("O-C16-vars", ["C16", "C01"], C, "c16_var_numbering", "Compiler::var with no live local binder: the returned index selects, in the run-time list Vars::new(globals ++ imported values), the last data import of that name owned by the current module, else the last command-line variable of that name; an undefined name is reported, never mis-indexed", [CORE + "compile.rs::Compiler::var"], label="bounded", bound="2 data imports x 2 owning modules, 2 global variables, names from a 2-letter alphabet, current module 0 or 1 (all symbolic)")
 ob("O-C01-binds", ["C01"], C, "c01_binds", "binds(sig, args) pairs the i-th signature kind (variable / filter) with the i-th argument id, in order", [CORE + "compile.rs::binds"], label="bounded", bound="<= 3 arguments, kinds and ids symbolic")
 ob("O-C03-peek", ["C03"], C, "c03_next_if_one", "next_if_one returns an element only under size_hint upper bound Some(1); pulls nothing when it declines because of the hint; never pulls an element it does not return (ghost pull counter on the upstream iterator)", [CORE + "box_iter.rs::next_if_one"], label="bounded", bound="upstream streams of length <= 3, every honest size hint")
